@@ -460,11 +460,7 @@ fn run() -> ! {
             "    echo -e 'output result = inputs.x + inputs.y' | blots --evaluate -i '{{\"x\": 42, \"y\": \"hello\"}}'"
         );
 
-        // If outputs were collected, write them before exiting
-        if !outputs.is_empty() || output_path.is_some() {
-            write_outputs(&outputs, output_path.as_ref());
-        }
-
+        // Nothing has been evaluated: this is an error exit, so no outputs object is written
         std::process::exit(1);
     }
 
